@@ -182,35 +182,36 @@ class _GridUFuncSignature:
         Whether or not two signatures are equivalent.
 
         Axes names in signatures are dummy variables, so an exact string match is not required.
-        Our comparison strategy is to instead work through both signatures left to right, replacing all occurrences
-        of each dummy index with names drawn from a common list. If after this process the replaced names are not
-        identical, the signatures must not be equivalent. Axes positions do have to match exactly.
+        Our comparison strategy is to instead work through both signatures left to right, building the renaming
+        of dummy names that maps one onto the other. If no consistent one-to-one renaming exists, the signatures
+        must not be equivalent. Axes positions do have to match exactly.
         """
 
-        def set_unique_inds(sig_part):
-            return set([i for arg in sig_part for i in arg])
-
-        all_unique_sig1_indices = set_unique_inds(self.in_ax_names) | set_unique_inds(
-            self.out_ax_names
-        )
-        all_unique_sig2_indices = set_unique_inds(other.in_ax_names) | set_unique_inds(
-            other.out_ax_names
-        )
-
-        if len(all_unique_sig1_indices) != len(all_unique_sig2_indices):
+        # Axes positions (and with them the number of axes of every argument) have to match exactly
+        if [tuple(arg) for arg in self.in_ax_positions] != [
+            tuple(arg) for arg in other.in_ax_positions
+        ] or [tuple(arg) for arg in self.out_ax_positions] != [
+            tuple(arg) for arg in other.out_ax_positions
+        ]:
             return False
 
-        sig1_replaced = str(self)
-        sig2_replaced = str(other)
-        for dummy1, dummy2, common_replacement in zip(
-            all_unique_sig1_indices,
-            all_unique_sig2_indices,
-            self._REPLACEMENT_DUMMY_INDEX_NAMES,
-        ):
-            sig1_replaced = sig1_replaced.replace(dummy1, common_replacement)
-            sig2_replaced = sig2_replaced.replace(dummy2, common_replacement)
+        sig1_names = [list(arg) for arg in list(self.in_ax_names) + list(self.out_ax_names)]
+        sig2_names = [list(arg) for arg in list(other.in_ax_names) + list(other.out_ax_names)]
+        if [len(arg) for arg in sig1_names] != [len(arg) for arg in sig2_names]:
+            return False
 
-        return sig1_replaced == sig2_replaced
+        # The dummy names must be related by a one-to-one renaming. Work through both signatures left to
+        # right (names are compared as whole names, never as text inside the signature string).
+        renaming: Dict[str, str] = {}
+        inverse_renaming: Dict[str, str] = {}
+        for arg1, arg2 in zip(sig1_names, sig2_names):
+            for dummy1, dummy2 in zip(arg1, arg2):
+                if renaming.setdefault(dummy1, dummy2) != dummy2:
+                    return False
+                if inverse_renaming.setdefault(dummy2, dummy1) != dummy1:
+                    return False
+
+        return True
 
 
 def _parse_signature_from_string(
